@@ -572,10 +572,7 @@ impl Store {
         if filter.num_ids() > 0 {
             // Fetch by id
             for id in filter.ids() {
-                // Stop if limited
-                if output.len() >= filter.limit() as usize {
-                    break;
-                }
+                // (the limit is applied below, once we know which are the newest)
                 if let Some(event) = self.get_event_by_id(id)? {
                     // and check each against the rest of the filter
                     if filter.event_matches(event)? && screen(event) {
